@@ -15,8 +15,10 @@ def sh(cmd, cwd=None, timeout=900):
     return p.returncode, (p.stdout + p.stderr)
 
 def main():
-    seed_dir, seed_id = sys.argv[1], sys.argv[2]
-    checks = sys.argv[3:]
+    alt = "--alt" in sys.argv   # run the checks against the scratch worktree (VERIF_ALT_REPO) instead of /repo
+    argv = [a for a in sys.argv if a != "--alt"]
+    seed_dir, seed_id = argv[1], argv[2]
+    checks = argv[3:]
     meta = json.load(open(os.path.join(seed_dir, "meta.json")))
     patch = os.path.join(seed_dir, "patch.diff")
     demo = os.path.join(seed_dir, "demo_test.go")
@@ -24,6 +26,7 @@ def main():
     os.rmdir(wt)
     ran = []
     ok = True
+    results = {}
     try:
         rc, out = sh("git -C /repo worktree add -q --detach %s HEAD" % wt)
         assert rc == 0, out
@@ -53,11 +56,19 @@ def main():
             ran.append(("patched: demo (must fail)", rc))
             if rc == 0:
                 ok = False; print("demo passes with patch")
+        if ok and alt:
+            os.remove(os.path.join(wt, "zz_seed_demo_test.go"))
+            results = {}
+            for cid in checks:
+                t0 = time.time()
+                rc, out = sh("VERIF_ALT_REPO=%s ./check %s quick" % (wt, cid), cwd=V, timeout=3600)
+                lines = [l for l in out.splitlines() if l.startswith(("VIOLATION", "OK ", "INCONCLUSIVE", "KNOWN", "  operator"))]
+                results[cid] = {"rc": rc, "lines": lines[:6], "wall_s": round(time.time() - t0, 1), "alt_repo": True}
+                print(cid, rc, lines[:4])
     finally:
         sh("git -C /repo worktree remove --force %s" % wt)
     print("confirmed" if ok else "NOT CONFIRMED", seed_id, ran)
-    results = {}
-    if ok:
+    if ok and not alt:
         rc, out = sh("git -C /repo status --porcelain")
         assert out.strip() == "", "repo not clean: " + out
         rc, out = sh("git -C /repo apply %s" % patch)
